@@ -129,6 +129,14 @@ class Evaluator:
             return self.gcells[name]
         raise RecipeError("unknown variable %r" % name)
 
+    def abi_bytes(self, name, fr) -> bool:
+        d = None
+        if fr.routine is not None:
+            d = self.routines[fr.routine].get("locals", {}).get(name)
+        if d is None:
+            d = self.recipe.get("vars", {}).get(name)
+        return bool(d) and d.get("kind") == "abi" and d.get("t") == "B"
+
     def idx(self, x, fr):
         return x if isinstance(x, int) else want_u(self.ev(x, fr))
 
@@ -328,6 +336,9 @@ class Evaluator:
         if t == "store":
             v = E(n[2])
             c = self.cell(n[1], fr)
+            if self.abi_bytes(n[1], fr):
+                # abi.String.set(expr) prefixes the length: Len(value) panics when the run-time value is not bytes
+                want_b(v)
             c.v = v
             c.written = True
             return None
@@ -398,6 +409,8 @@ class Evaluator:
             for p, a in zip(r["params"], n[2]):
                 if p[2] == "abi":
                     params[p[0]] = E(a)
+                    if p[1] == "B":
+                        want_b(params[p[0]])  # tmp = abi.String(); tmp.set(arg) computes Len(arg)
             for p, a in zip(r["params"], n[2]):
                 if isinstance(a, list) and a and a[0] == "ref":
                     params[p[0]] = self.cell(a[1], fr)
@@ -419,6 +432,8 @@ class Evaluator:
                 self.active.pop()
             if r["ret"] == "N":
                 return None
+            if r.get("kind") == "abi" and r["ret"] == "B":
+                want_b(v)  # output.set(value) of an abi.String output
             return v
         if t == "itxn":
             W.itxn_begin()
